@@ -252,6 +252,7 @@ def run(ck):
     quick = ck.tier == "quick"
     cases = jgen.expr_cases(ck.seed * 15485863 + 2, 700 if quick else 12000, depth=3 if quick else 4)
     cases += jgen.expr_cases(ck.seed * 15485863 + 3, 300 if quick else 6000, start_id=len(cases) + 1, depth=3, numeric=True)
+    cases += jgen.expr_cases(ck.seed * 15485863 + 4, 60 if quick else 600, start_id=len(cases) + 1, depth=2, collide=True)
     parser_check(ck, cases)
     for bi, batch in enumerate(core.chunks(cases, 3000)):
         obs, r = jrun.spec_results("C02", batch, name=f"b{bi}", timeout=3000)
